@@ -5,10 +5,10 @@ CONSTANTS
   Durs = {0, 1, 3}
   Horizon = 14
   MaxNotifs = 2
-  Lazy = FALSE
+  Lazy = TRUE
   DrainAfterIdle = FALSE
-  Resumed = FALSE
-  Age = 0
+  Resumed = TRUE
+  Age = 1
   StartWaitIdle = FALSE
 INVARIANTS NotFaster NoLostWakeup Regular
 CHECK_DEADLOCK FALSE
